@@ -479,7 +479,8 @@ def set_check(work, binary, verdict, stats, tier, seed):
     picks = sorted(set(picks))
     put(work, "GatherSetRun.tla", "---- MODULE GatherSetRun ----\nEXTENDS GatherSetGen\nPicksDef == <<%s>>\n====\n" % ", ".join(map(str, picks)))
     put(work, "GatherSetRun.cfg", 'CONSTANTS\n  Picks <- PicksDef\n  OutFile = "cases.ndjson"\nINIT Init\nNEXT Next\n')
-    r = v.tlc(work.dir, "GatherSetRun", cfg="GatherSetRun.cfg", workers=1, timeout=900, heap="6g")
+    tmo = 900 if tier == "quick" else 2400
+    r = v.tlc(work.dir, "GatherSetRun", cfg="GatherSetRun.cfg", workers=1, timeout=tmo, heap="6g")
     v.require(r, "case enumeration")
     space = r.prints("SPACE")
     if not r.clean or r.prints("LAWBROKEN") or not space or [int(x) for x in space[0][:2]] != [ncfg, ntab]:
@@ -490,7 +491,7 @@ def set_check(work, binary, verdict, stats, tier, seed):
     stats["oracle_laws_checked_on_cases"] = len(picks)
     job = {"cases": work.path("cases.ndjson"), "out": work.path("results.ndjson"), "stats": work.path("setstats.json")}
     json.dump(job, open(work.path("setjob.json"), "w"))
-    rc, out, wall = v.run_harness(binary, "TestGatherSet", work.path("setjob.json"), timeout=900)
+    rc, out, wall = v.run_harness(binary, "TestGatherSet", work.path("setjob.json"), timeout=tmo)
     if rc != 0 or not os.path.exists(job["stats"]):
         sys.stderr.write(out[-3000:])
         raise v.Inconclusive("gather set driver failed (rc %d)" % rc)
@@ -498,7 +499,7 @@ def set_check(work, binary, verdict, stats, tier, seed):
     stats["set_published_candidates"] = st.get("published", 0)
     stats["real_traces"] += st.get("cases", 0)
     put(work, "GatherSetMon-run.cfg", 'SPECIFICATION Spec\nCONSTANTS\n  ResultFile = "results.ndjson"\n  Check = %s\nINVARIANT Report\nCHECK_DEADLOCK FALSE\n' % tla_set(C18_SET_PREDS))
-    r = v.tlc(work.dir, "GatherSetMon", cfg="GatherSetMon-run.cfg", workers=1, timeout=900, heap="6g")
+    r = v.tlc(work.dir, "GatherSetMon", cfg="GatherSetMon-run.cfg", workers=1, timeout=tmo, heap="6g")
     if r.error or not r.clean:
         sys.stderr.write(r.out[-3000:])
         raise v.Inconclusive("set monitor did not complete (%s)" % r.error)
